@@ -200,10 +200,13 @@ def evaluate(ctx: Ctx, cases, oracle_only=False):
             if not abs(v - c['_val']) <= t:
                 ctx.corr_fail('value', f'{short}: impl {v!r} vs model {c["_val"]!r}', case)
         samp = c['_samp']
-        if any(x.get('Ys') != results[0].get('Ys') or x.get('Xs') != results[0].get('Xs') for x in results):
+        if any('sample_unobservable' in x for x in results):
+            ctx.corr_fail('sample-unobservable', f'{short}: stratified_subsampling(Y, X, ratio, values) cannot be called any more: '
+                          f'{[x.get("sample_unobservable") for x in results][0]}', case)
+        elif any(x.get('Ys') != results[0].get('Ys') or x.get('Xs') != results[0].get('Xs') for x in results):
             ctx.oracle_fail('sample-allocator-dependent', f'{short}: sampled vectors differ across allocator histories', case)
             continue
-        if [results[0].get('Ys'), results[0].get('Xs')] != samp:
+        if not any('sample_unobservable' in x for x in results) and [results[0].get('Ys'), results[0].get('Xs')] != samp:
             ctx.oracle_fail('sample', f'{short}: sampled (Y,X) {str(results[0].get("Ys"))[:80]} / {str(results[0].get("Xs"))[:80]} is not the stated '
                             f'sample (first floor(floor(r n)/#values) rows per target value) {str(samp)[:160]}', case)
             continue
